@@ -124,7 +124,8 @@ theorem inv_step {h : List Ev} {s : St} {e : Ev} (hi : Inv h s) (hc : check s e 
       obtain ⟨x, hx, hxa⟩ := List.mem_map.1 ha
       have : s.waiters.any (·.id == w.id) = true := List.any_eq_true.2 ⟨x, hx, by simp [hxa, hab]⟩
       rw [hnw] at this; contradiction
-  | cfg _ _ _ _ _ | hsReq _ _ | hsFrame _ _ | frame _ | peerClose _ | never _ | cpu _ | quiesce =>
+  | cfg _ _ _ _ _ _ | hsReq _ _ | hsFrame _ _ | frame _ | peerClose _ | never _ | cpu _ | quiesce
+  | authBegin _ _ _ | authEnd _ _ _ _ | park _ _ =>
     refine ⟨?_, hn, ?_, hw⟩
     · simp [apply, outIds, List.filterMap_append] at ho ⊢; exact ho
     · simp [apply, issueIds, List.filterMap_append] at his ⊢; exact his
